@@ -590,6 +590,12 @@ pub fn gen(stream: &str, tier: &str, seed: u64, out: &mut dyn Write) -> bool {
             let mut structs: Vec<Val> = fixed_values().into_iter().filter(|v| matches!(v, Val::Struct(fs) if !fs.is_empty())).collect();
             structs.push(Val::Struct(vec![(1, Val::Struct(vec![(7, Val::I8(1)), (9, Val::Bool(true))])), (2, Val::Bool(true)), (3, Val::I16(5)), (4, Val::Struct(vec![])), (5, Val::Bool(false)), (30, Val::I64(1)), (31, Val::List(TT::Struct, vec![Val::Struct(vec![(3, Val::I32(1))])]))]));
             structs.push(Val::Struct(vec![(10, Val::Map(TT::I32, TT::Struct, vec![(Val::I32(1), Val::Struct(vec![(100, Val::Bool(true))]))])), (11, Val::Bool(false)), (12, Val::Bin(vec![1, 2, 3])), (-3, Val::Uuid([9; 16])), (-2, Val::Dbl(7))]));
+            // a struct-valued field under ids at both ends of the i16 range, several short-delta fields inside it
+            for carrier in [32760i16, 32767, -32768, 20000, 255] {
+                let inner = Val::Struct((1..=9).map(|i| (i as i16, if i % 3 == 0 { Val::Bool(i % 2 == 0) } else { Val::I8(i as i8) })).collect());
+                structs.push(Val::Struct(vec![(3, Val::I16(1)), (carrier, inner.clone()), (if carrier == 32767 { -5 } else { carrier.wrapping_add(1) }, Val::I8(9))]));
+                structs.push(Val::Struct(vec![(carrier, Val::List(TT::Struct, vec![inner.clone(), inner.clone()])), (7, Val::Bool(true))]));
+            }
             for _ in 0..n(60, 1500) { if let v @ Val::Struct(_) = gen::gen_val(&mut r, TT::Struct, 4) { structs.push(v); } }
             for v in &structs {
                 let Val::Struct(fs) = v else { continue };
@@ -642,6 +648,22 @@ pub fn gen(stream: &str, tier: &str, seed: u64, out: &mut dyn Write) -> bool {
                 let _ = writeln!(out, "sk {} {} (read {})", p.name(), hex(bytes), tt.name());
                 let _ = writeln!(out, "sk {} {} (skip {})", p.name(), hex(bytes), tt.name());
             };
+            // a declared length far beyond the input with a good part of the payload delivered: 4095 / 4096 / 4097 / 10000 bytes behind
+            // a string header that announces 2^20, 2^30 or i32::MAX bytes (read and skip, every safe reader: the allocation oracle)
+            for declared in [1u32 << 20, 1 << 30, i32::MAX as u32] { for delivered in [4095usize, 4096, 4097, 10000] {
+                let mut bin = declared.to_be_bytes().to_vec(); bin.extend(vec![0x61u8; delivered]);
+                let mut le = declared.to_le_bytes().to_vec(); le.extend(vec![0x61u8; delivered]);
+                let mut cmp = vec![]; let mut n = declared; loop { let b = (n & 0x7f) as u8; n >>= 7; if n == 0 { cmp.push(b); break; } cmp.push(b | 0x80); } cmp.extend(vec![0x61u8; delivered]);
+                for p in SP::SAFE {
+                    let bytes = if p.compact() { &cmp } else if p == SP::Le { &le } else { &bin };
+                    emit(out, p, bytes, TT::Binary);
+                    // ... and as a field of a struct (read and skipped in field context)
+                    let mut st = if p.compact() { vec![0x18u8] } else { vec![0x0b, 0x00, 0x01] };
+                    if p == SP::Le { st = vec![0x0b, 0x01, 0x00]; }
+                    st.extend(bytes.iter());
+                    emit(out, p, &st, TT::Struct);
+                }
+            } }
             // every truncation point of valid struct (and other) encodings: all strict prefixes rejected
             for v in &vals { for p in SP::SAFE { let _ = writeln!(out, "pfx {} {}", p.name(), v.sexp()); } }
             // bit flips
